@@ -259,6 +259,20 @@ CLAIMED = {
         technique="TLA+ exact-arithmetic kernel spec model-checked by TLC + TLC trace validation of records taken from the real contacts",
         ref="5/C06",
     ),
+    "C12": dict(
+        level="model_checking",
+        text="MaterialLaw.tla states the strain energies of Simo1986 and Harsch2021 on strain states with integer |B_Gamma| and |B_Gamma0| "
+             "(reference vectors of length 1, 2, 3, 5, 7) in exact rational arithmetic; forces, couples and tangents are defined as gradients "
+             "without calculus (central differences of the quadratic part, the stretch's derivative from 2 l l' = (G.G)'); TLC checks them against "
+             "the closed forms, the tangent against the differentiated identity l n = ..., tangent symmetry, and Legendre duality of the quadratic "
+             "law on the whole lattice. Every case is evaluated on long-lived law objects (equal strains with different reference strains "
+             "consecutively): potential, B_n, B_m and the four tangents are compared with the spec's rationals; every law object that provides a "
+             "complementary energy or compliance matrices is checked for Legendre duality.",
+        note="448 cases quick, ~7k thorough. Harsch2021 is decided only on strains with integer Euclidean length (there its energy, force and "
+             "tangent are rational); compared at 1e-12 relative.",
+        technique="TLA+ exact-arithmetic spec + TLC exhaustive case enumeration, replay into the implementation",
+        ref="5/C12",
+    ),
 }
 
 NOT_APPLICABLE = {
